@@ -27,9 +27,9 @@ namespace
     int val_of(const tracked::T &t) { return t.value(); }
 
     enum { S_PUSH, S_EMPLACE, S_RESIZE, S_ERASE, S_CLEAR, S_COPY_CTOR, S_MOVE_CTOR, S_COPY_ASSIGN, S_MOVE_ASSIGN, S_SELF_ASSIGN, S_CTOR_RANGE, S_CTOR_ILIST,
-           S_N };
+           S_FILL, S_N };
     const char *S_NAME[] = {"push_back", "emplace_back", "resize", "erase", "clear", "copy_ctor", "move_ctor", "copy_assign", "move_assign", "self_assign",
-                            "ctor(range)", "ctor(ilist)"};
+                            "ctor(range)", "ctor(ilist)", "fill_past_capacity"};
 
     // one static_vector<E,N> object living in an exact-size simulated memory block
     template <class E, size_t N> struct Slot
@@ -129,6 +129,25 @@ namespace
                 R.throw_after = 0;
                 R.guard = false;
                 if (!thrown) { mx.push_back(val); truncate(mx); }
+                break;
+            }
+            case S_FILL:
+            {
+                // push until the container is full and then two more (large capacities are only reached this way)
+                size_t todo = N - mx.size() + 2;
+                overflow_offered = true;
+                probe("push_when_full");
+                fault("input_beyond_capacity");
+                for (size_t q = 0; q < todo; q++)
+                {
+                    E e(val + (int)q); // the harness' own temporary: constructed before the guard is set
+                    R.guard = true;
+                    if (q & 1) x.emplace_back(val + (int)q);
+                    else x.push_back(e);
+                    R.guard = false;
+                    if (mx.size() < N) mx.push_back(val + (int)q);
+                }
+                if (N >= 200) probe("capacity_256_filled");
                 break;
             }
             case S_RESIZE:
@@ -264,19 +283,22 @@ namespace
         Plan generate(Rng &r, Tier tier) override
         {
             Plan p;
-            p.cfg = {(int64_t)r.below(4), (int64_t)r.below(2), (int64_t)r.below(5)};
+            int64_t nsel = r.chance(1, 12) ? 5 : (int64_t)r.below(5);
+            p.cfg = {(int64_t)r.below(4), (int64_t)r.below(2), nsel};
             int n = (int)r.range(3, tier == THOROUGH ? 80 : 36);
+            if (nsel == 5) n = (int)r.range(3, 14); // the big capacity is expensive to compare after every step
             for (int i = 0; i < n; i++)
             {
                 int64_t k = r.chance(2, 5) ? (r.chance(1, 2) ? S_PUSH : S_EMPLACE) : (int64_t)r.below(S_N);
+                if (nsel == 5 && r.chance(1, 3)) k = S_FILL;
                 p.ops.push_back({k, (int64_t)r.below(2), (int64_t)r.below(20), (int64_t)r.below(20), (int64_t)r.below(1000)});
             }
             return p;
         }
         std::string describe(const Plan &p) override
         {
-            static const int NS[] = {1, 2, 3, 4, 8};
-            std::string s = "N=" + std::to_string(NS[mod(p.c(2), 5)]) + " fill=" + std::to_string(mod(p.c(0), 4)) + ":";
+            static const int NS[] = {1, 2, 3, 4, 8, 256};
+            std::string s = "N=" + std::to_string(NS[mod(p.c(2), 6)]) + " fill=" + std::to_string(mod(p.c(0), 4)) + ":";
             for (auto &o : p.ops) s += std::string(" ") + (arg(o, 1) % 2 ? "B." : "A.") + S_NAME[mod(arg(o, 0), S_N)] + "(" + std::to_string(arg(o, 2)) + "," + std::to_string(arg(o, 3)) + ")";
             return s;
         }
@@ -285,13 +307,14 @@ namespace
             Result res;
             simalloc::st().reset((int)p.c(0), p.c(1) != 0);
             tracked::reg().reset("C14");
-            switch ((int)mod(p.c(2), 5))
+            switch ((int)mod(p.c(2), 6))
             {
             case 0: run_sv<E, 1>(p, tr, res); break;
             case 1: run_sv<E, 2>(p, tr, res); break;
             case 2: run_sv<E, 3>(p, tr, res); break;
             case 3: run_sv<E, 4>(p, tr, res); break;
-            default: run_sv<E, 8>(p, tr, res); break;
+            case 4: run_sv<E, 8>(p, tr, res); break;
+            default: run_sv<E, 256>(p, tr, res); break; // the size counter needs more than one byte
             }
             if (tr_) tracked::check_balance();
             if (simalloc::live_blocks() != 0) violate("C14/harness", "simulated memory not released");
